@@ -32,16 +32,56 @@ impl MmapMut {
     fn flush_async(&self) -> std::io::Result<()> {
         panic!()
     }
+}
 
-    fn copy_from_slice(&self, _: &[u8]) {
+#[cfg(not(feature = "mmap"))]
+impl std::ops::Deref for MmapMut {
+    type Target = [u8];
+
+    fn deref(&self) -> &[u8] {
         panic!()
     }
+}
+
+#[cfg(not(feature = "mmap"))]
+impl std::ops::DerefMut for MmapMut {
+    fn deref_mut(&mut self) -> &mut [u8] {
+        panic!()
+    }
+}
+
+/// Copies `buf` into the mapping at `*pos` and advances `*pos`. The mapping
+/// holds exactly the declared number of bytes: more than that is refused.
+fn write_mmap(mmap: &mut MmapMut, pos: &mut usize, buf: &[u8]) -> std::io::Result<usize> {
+    if let Some(end) = pos.checked_add(buf.len()) {
+        if end <= mmap.len() {
+            mmap[*pos..end].copy_from_slice(buf);
+            *pos = end;
+            return Ok(buf.len());
+        }
+    }
+    Err(crate::errors::io_error(
+        "more data written than the declared size",
+    ))
+}
+
+/// A mapped temp file was allocated at the declared size: cut it back to the
+/// bytes actually written, so that the stored file is exactly what was hashed.
+fn trim_mmap(tmpfile: &NamedTempFile, mmap: Option<MmapMut>, pos: usize) -> std::io::Result<()> {
+    if let Some(mmap) = mmap {
+        if pos < mmap.len() {
+            drop(mmap);
+            return tmpfile.as_file().set_len(pos as u64);
+        }
+    }
+    Ok(())
 }
 
 pub struct Writer {
     cache: PathBuf,
     builder: IntegrityOpts,
     mmap: Option<MmapMut>,
+    mmap_pos: usize,
     tmpfile: NamedTempFile,
 }
 
@@ -72,12 +112,15 @@ impl Writer {
             builder: IntegrityOpts::new().algorithm(algo),
             tmpfile,
             mmap,
+            mmap_pos: 0,
         })
     }
 
     pub fn close(self) -> Result<Integrity> {
         let sri = self.builder.result();
         let cpath = path::content_path(&self.cache, &sri);
+        trim_mmap(&self.tmpfile, self.mmap, self.mmap_pos)
+            .with_context(|| "Failed to set the length of the temp file".to_string())?;
         DirBuilder::new()
             .recursive(true)
             // Safe unwrap. cpath always has multiple segments
@@ -115,9 +158,9 @@ impl Writer {
 impl Write for Writer {
     fn write(&mut self, buf: &[u8]) -> std::io::Result<usize> {
         if let Some(mmap) = &mut self.mmap {
+            let written = write_mmap(mmap, &mut self.mmap_pos, buf)?;
             self.builder.input(buf);
-            mmap.copy_from_slice(buf);
-            Ok(buf.len())
+            Ok(written)
         } else {
             // Hash only what the file accepted: after a short write the
             // caller submits the rest again.
@@ -147,6 +190,7 @@ struct Inner {
     builder: IntegrityOpts,
     tmpfile: NamedTempFile,
     mmap: Option<MmapMut>,
+    mmap_pos: usize,
     buf: Vec<u8>,
     last_op: Option<Operation>,
 }
@@ -181,6 +225,7 @@ impl AsyncWriter {
             cache: cache_path,
             builder: IntegrityOpts::new().algorithm(algo),
             mmap,
+            mmap_pos: 0,
             tmpfile,
             buf: vec![],
             last_op: None,
@@ -203,18 +248,26 @@ impl AsyncWriter {
                             let tmpfile = inner.tmpfile;
                             let sri = inner.builder.result();
                             let cpath = path::content_path(&inner.cache, &sri);
+                            let mmap = inner.mmap;
+                            let mmap_pos = inner.mmap_pos;
 
                             // Start the operation asynchronously.
-                            *state = State::Busy(crate::async_lib::spawn_blocking(|| {
-                                let res = std::fs::DirBuilder::new()
-                                    .recursive(true)
-                                    // Safe unwrap. cpath always has multiple segments
-                                    .create(cpath.parent().unwrap())
+                            *state = State::Busy(crate::async_lib::spawn_blocking(move || {
+                                let res = trim_mmap(&tmpfile, mmap, mmap_pos)
                                     .with_context(|| {
-                                        format!(
-                                            "building directory {} failed",
-                                            cpath.parent().unwrap().display()
-                                        )
+                                        "Failed to set the length of the temp file".to_string()
+                                    })
+                                    .and_then(|_| {
+                                        std::fs::DirBuilder::new()
+                                            .recursive(true)
+                                            // Safe unwrap. cpath always has multiple segments
+                                            .create(cpath.parent().unwrap())
+                                            .with_context(|| {
+                                                format!(
+                                                    "building directory {} failed",
+                                                    cpath.parent().unwrap().display()
+                                                )
+                                            })
                                     });
                                 if res.is_err() {
                                     let _ = s.send(res.map(|_| sri));
@@ -311,9 +364,11 @@ impl AsyncWrite for AsyncWriter {
                         // Start the operation asynchronously.
                         *state = State::Busy(crate::async_lib::spawn_blocking(|| {
                             if let Some(mmap) = &mut inner.mmap {
-                                inner.builder.input(&inner.buf);
-                                mmap.copy_from_slice(&inner.buf);
-                                inner.last_op = Some(Operation::Write(Ok(inner.buf.len())));
+                                let res = write_mmap(mmap, &mut inner.mmap_pos, &inner.buf);
+                                if res.is_ok() {
+                                    inner.builder.input(&inner.buf);
+                                }
+                                inner.last_op = Some(Operation::Write(res));
                                 State::Idle(Some(inner))
                             } else {
                                 // Hash only what the file accepted: after a
